@@ -58,10 +58,19 @@ def judge(case, rep, S):
     else:
         seq = case["s"]
         pat = M.pattern(seq)
-    obj = S["SP"](seq)
-    if case["k"] == "seq" and rep.evaluations % 4 == 0:
+    if case["k"] == "seq" and len(seq) <= 400:
+        obj = SALT.make_object(S, seq, gen.sub_rng(0, "make", seq), rep)
+    else:
+        obj = S["SP"](seq)
+    if case["k"] == "seq" and (rep.evaluations % 4 == 0 or len(seq) <= 60 and rep.evaluations % 2 == 0):
+        if len(seq) <= 60:
+            obj.get_kappa()                 # delta-max cached before delta is asked for
+            rep.cnt("kappa_before_delta")
         SALT.salt(S, obj, seq, gen.sub_rng(0, "salt", seq), rep, cheap=len(seq) > 150)
     got = obj.get_delta()
+    again = obj.get_delta()
+    if not (again == got):
+        rep.viol("delta_not_repeatable", "get_delta() answered %r and then %r on one object (%s)" % (got, again, seq[:80]))
     want = M.delta_exact(pat)
     L = len(pat)
     p, n, z = M.counts(pat)
